@@ -201,7 +201,7 @@ def execute(rep, case, tier):
 
 def run_shard(rep, tier, seed, shard, nshards):
     dl = Deadline(budget(tier, 90, 1200))
-    for k in range(budget(tier, 6, 12)):
+    for k in range(budget(tier, 6, 30)):
         if dl.expired():
             break
         cs = f"{seed}/C17/{shard}/{k}"
